@@ -167,3 +167,4 @@ class Obligation:
     text: str = ""
     inputs: Dict[str, Any] = field(default_factory=dict)   # name -> z3 term (for concretisation)
     state: Any = None
+    meta: Dict[str, Any] = field(default_factory=dict)
